@@ -56,6 +56,9 @@ var loopbackOnce sync.Once
 type faultProcess struct {
 	process.Service
 	mu    sync.Mutex
+	id    uint64
+	c     *Cluster
+	stray []string // shares that arrived here although they were computed for somebody else
 	plan  map[string]string // "prepare" | "execute" | "contribute" -> "error-reply" (carried out, then answered with an error) | "refused" (not carried out)
 	fired map[string]int
 }
@@ -96,6 +99,13 @@ func (f *faultProcess) OnExecute(ctx context.Context, sender uint64, account str
 }
 
 func (f *faultProcess) OnContribute(ctx context.Context, sender uint64, account string, secret bls.SecretKey, vVec []bls.PublicKey) (bls.SecretKey, []bls.PublicKey, error) {
+	if f.c != nil {
+		if to := f.c.shareMeantFor(secret.Serialize()); to != 0 && to != f.id {
+			f.mu.Lock()
+			f.stray = append(f.stray, fmt.Sprintf("the share participant %d computed for participant %d (account %q) was delivered to participant %d", sender, to, account, f.id))
+			f.mu.Unlock()
+		}
+	}
 	switch k := f.take("contribute"); k {
 	case "refused":
 		return bls.SecretKey{}, nil, errInjectedRemote
@@ -148,7 +158,7 @@ func newRealNet(t *testing.T, rc *RunCtx, n int) *realNet {
 		Perms: FullPermissions("client1", "client2")})
 	rn := &realNet{c: c}
 	for i, nd := range c.Nodes {
-		fp := &faultProcess{Service: nd.Inst.Process, plan: map[string]string{}, fired: map[string]int{}}
+		fp := &faultProcess{Service: nd.Inst.Process, id: nd.ID, c: c, plan: map[string]string{}, fired: map[string]int{}}
 		rn.faults = append(rn.faults, fp)
 		var err error
 		for attempt := 0; attempt < 4; attempt++ {
@@ -219,6 +229,58 @@ func runRealNet(t *testing.T, rc *RunCtx, prop string) {
 		out.State, out.PubKey, out.Participants, out.Message = res.GetState(), res.GetPublicKey(), res.GetParticipants(), res.GetMessage()
 		return out
 	}
+	if prop == "C16" {
+		// Share ownership over the real sender: two to four generations (other names, drawn initiators) at once, twice over so
+		// that the second wave meets connections the first one left behind.  Whatever else happens, a share arrives where it
+		// was meant to go.
+		total, ok := 0, 0
+		for wave := 0; wave < 2; wave++ {
+			k := 2 + ch.Pick(3, 0)
+			outs := make([]*dkgOutcome, k)
+			var wg sync.WaitGroup
+			for g := 0; g < k; g++ {
+				g := g
+				from := parts[ch.Pick(n, 0)]
+				p := fmt.Sprintf("%s w%d g%d", path, wave, g)
+				wg.Add(1)
+				go func() {
+					defer wg.Done()
+					ctx, cancel := context.WithTimeout(from.Inst.ClientCtx("client1", ""), 60*time.Second)
+					defer cancel()
+					o := &dkgOutcome{Done: true}
+					res, err := from.Inst.AcctH.Generate(ctx, &pb.GenerateRequest{Account: p, Passphrase: []byte("pass"), SigningThreshold: uint32(th), Participants: uint32(n)})
+					if err != nil {
+						o.State, o.Message = pb.ResponseState_FAILED, err.Error()
+					} else {
+						o.State, o.Message = res.GetState(), res.GetMessage()
+					}
+					outs[g] = o
+				}()
+			}
+			wg.Wait()
+			for _, o := range outs {
+				total++
+				if o.State == pb.ResponseState_SUCCEEDED {
+					ok++
+				} else {
+					rc.Logf("concurrent generation: %v %q", o.State, o.Message)
+				}
+			}
+		}
+		rc.Stats.Seen("cases", "realnet-ownership/"+desc)
+		rc.Stats.Inc("realnet_concurrent_generations", int64(total))
+		rc.Stats.Inc("realnet_concurrent_generations_succeeded", int64(ok))
+		rc.Sample = map[string]any{"layer": "concurrent generations over Dirk's own sender and gRPC edges", "case": desc, "generations": total, "succeeded": ok}
+		for _, f := range rn.faults {
+			f.mu.Lock()
+			for _, x := range f.stray {
+				rc.Violate("C16", "share-of-another-participant", "over the real sender, with generations running at the same time: "+x, 0)
+			}
+			f.mu.Unlock()
+		}
+		rc.Stats.Inc("share_deliveries_checked_over_the_real_sender", int64(len(c.sentShares)))
+		return
+	}
 	out := gen(path)
 	rc.Logf("%s -> %v %q", desc, out.State, out.Message)
 	rc.Stats.Seen("cases", "realnet/"+desc)
@@ -267,4 +329,5 @@ func runRealNet(t *testing.T, rc *RunCtx, prop string) {
 func init() {
 	noBubble["C12:realnet"] = true
 	noBubble["C13:realnet"] = true
+	noBubble["C16:realnet"] = true
 }
